@@ -1144,5 +1144,7 @@ package jrpc2
 //@   loop 1 invariant len(msgs) == (batch ? jsonArrayLen(str(data)) : 1) && (len(msgs) > 0 ==> isnew(ptr(msgs)))
 //@   loop 1 invariant forall(i int, 0 <= i && i < len(msgs) ==> str(msgs[i]) == (batch ? jsonElem(str(data), i) : jsonValueText(str(data))))
 //@   loop 1 invariant forall(i int, 0 <= i && i < len(msgs) ==> isnew(ptr(msgs[i])))
-//@   loop 1 invariant forall(i int, 0 <= i && i <= rangeindex ==> (*j)[i] != nil && isnew((*j)[i]) && allocated((*j)[i]) && (*j)[i].batch == batch)
+//@   loop 1 invariant forall(i int, 0 <= i && i <= rangeindex ==> (*j)[i] != nil && isnew((*j)[i]))
+//@   loop 1 invariant forall(i int, 0 <= i && i <= rangeindex ==> allocated((*j)[i]))
+//@   loop 1 invariant forall(i int, 0 <= i && i <= rangeindex ==> (*j)[i].batch == batch)
 //@   loop 1 invariant forall(i int, 0 <= i && i <= rangeindex ==> parsedAs((*j)[i], batch ? jsonElem(str(data), i) : jsonValueText(str(data))))
